@@ -178,7 +178,8 @@ LINK_NAMES = ['lnk', 'out', 'up', 'share', 'log', 'work', 'cycle', 'job',
 WF_NAMES = ['foo', 'a/b', 'x1/y/z', 'w-1.2', 'Wf_+@']
 
 
-ZONES = ('cylc-run', 'ext1', 'ext2', 'ext3', 'extb', 'canary', 'src')
+ZONES = ('cylc-run', 'ext1', 'ext2', 'ext3', 'extb', 'extc', 'canary',
+         'src')
 EXT = ('ext1', 'ext2', 'ext3')
 
 
@@ -259,7 +260,7 @@ def build_tree(rng, home):
         T.mkfile(cr, 'stray.txt', 'stray in cylc-run\n')
     # ext zones: foreign content that must survive
     t.ext = {}
-    for z in EXT + ('extb',):
+    for z in EXT + ('extb', 'extc'):
         e = root.children[z]
         T.mkfile(e, 'notes.txt', f'{z} notes\n')
         ecr = T.mkdir(e, 'cylc-run')
@@ -379,7 +380,7 @@ def build_tree(rng, home):
         else:
             # text looks right but resolves (through a link) elsewhere
             rel = '/'.join(idparts[:-1])
-            par = T.ensure_dirs(t.ext['extb'], rel)
+            par = T.ensure_dirs(t.ext['extc'], rel)
             nm = idparts[-1]
             if nm in par.children:
                 tp = t.canary.children['d1'].phys
@@ -788,6 +789,10 @@ def run_case(ctx, i, rng):
                          root_entry=t.run_link or t.rundir)
                 if '**' in comps:
                     ctx.count('items_recursive')
+    if (not whole and t.rundir is None and t.run_link is not None
+            and any(all(c == '**' for c in comps) for comps, _ in ok_parts)):
+        # '**' may name the (broken) run-dir link itself
+        T.closure(t.run_link, optional)
     if whole:
         if t.run_link is not None:
             T.closure(t.run_link, must, kinds)
